@@ -252,8 +252,13 @@ func (p *Proc) Check(sc *Script, extra []string, timeout time.Duration, vars []*
 		res = Sat
 	case resp == "unsat":
 		res = Unsat
-	case resp == "unknown" || strings.Contains(resp, "timeout") || strings.Contains(resp, "interrupted"):
-		res = Unknown
+	case resp == "unknown" || strings.Contains(resp, "timeout") || strings.Contains(resp, "interrupted") || strings.Contains(resp, "canceled"):
+		// a timed-out z3 keeps its cancel flag set and answers the following
+		// (pop)/(push) with "(error ... canceled)", which would be read as the
+		// answer to the next query: restart the process instead (lazily).
+		p.Kill()
+		p.ByResult[Unknown]++
+		return Unknown, nil, nil
 	default:
 		// (error ...) or anything unexpected: inconclusive, and restart the solver
 		p.Kill()
